@@ -560,6 +560,8 @@ class C16(Check):
 
         @functools.wraps(orig)
         def contract(*a, **k):
+            if self.brd.in_protocol:            # (calls the buffer-reuse monitor makes on its own are not the case's appends)
+                return orig(*a, **k)
             s1, s2 = a[0], a[1]
             ps = a[2] if len(a) > 2 else k.get('pixshift', 0)
             a0 = np.array(s1, copy=True)
@@ -568,6 +570,8 @@ class C16(Check):
             alog.append((a0, b0, ps, s1, s2, r))
             return r
         S.spec_append = contract
+        self.brd.per_case = 3
+        self.brd.attach(self.rec, S, 'spec_append', every=3, own=True)       # buffer-reuse differential (vlib/brd.py)
         for n in ('readspec', 'spec_append', 'spec_path', 'latest_mjd', 'number_of_fibers'):
             self.rec.wrap(S, n)
 
